@@ -20,6 +20,8 @@ func HarnessC12Pack() {
 		if envFaultsHit() > 0 {
 			verif.Reach("write-fault-injected")
 			verif.Assert("C12-failure-writing-the-slug-is-reported", err != nil)
+			// C20: metadata is handed out only for a slug that was written completely
+			verif.Assert("C20-no-metadata-for-an-incomplete-slug", err != nil)
 		} else if err == nil {
 			verif.Reach("pack-ok")
 			verif.Assert("C12-successful-pack-closed-the-streams", envTarClosed())
@@ -101,19 +103,38 @@ func HarnessC12Unpack() {
 		}
 		verif.Reach("unpack-ok")
 		// success: the whole archive is there
-		for _, e := range entries {
+		for i, e := range entries {
 			if e.Name == "" {
 				continue
 			}
-			where := refJoinAbs(refPush(refPush(nil, unpackDst), e.Name)) // the cleaned path below dst
+			st := refPush(refPush(nil, unpackDst), e.Name)
+			where := refJoinAbs(st) // the cleaned path below dst
 			kind := envLstatKind(where)
+			// final: no later entry names this path, an ancestor or a descendant of it, so what is
+			// there now is what this entry made
+			final := true
+			for _, l := range entries[i+1:] {
+				if l.Name == "" {
+					continue
+				}
+				ls := refPush(refPush(nil, unpackDst), l.Name)
+				if refHasPrefix(ls, st) || refHasPrefix(st, ls) {
+					final = false
+				}
+			}
 			switch e.Typeflag {
 			case tar.TypeReg:
 				verif.Assert("C12-success-means-every-file-entry-exists", kind == envFile || kind == envDir || kind == envLink)
+				if final {
+					verif.Assert("C12-success-means-the-last-entry-for-a-path-is-what-is-there", kind == envFile)
+				}
 			case tar.TypeDir:
 				verif.Assert("C12-success-means-every-directory-entry-exists", kind == envDir)
 			case tar.TypeSymlink:
 				verif.Assert("C12-success-means-every-link-entry-exists", kind == envLink || kind == envFile || kind == envDir)
+				if final {
+					verif.Assert("C12-success-means-the-last-entry-for-a-path-is-what-is-there", kind == envLink && envReadlink(where) == e.Linkname)
+				}
 			}
 		}
 	}
